@@ -123,6 +123,25 @@ def run(ctx):
     if newf:
         prep = [c for c in nonforeign_calls(newf) if c.is_("PayloadWriter::prepare_for_write")]
         ok = len(prep) == 1 and not [r for r in newf.body.return_blocks() if r in newf.body.reachable(0, cut={prep[0].bb})]
+        if not prep:
+            # prepare_for_write() written out in the constructor: the four zero bytes are appended to the buffer that becomes
+            # the writer's, exactly when length prefixes are on (parameter with_length_prefix), on every path
+            nb = newf.body
+            nsy = Sym(newf)
+            ph = []
+            for c in nonforeign_calls(newf):
+                if c.fn is newf and c.is_("extend_from_slice"):
+                    arr = strip_sym(arg_syms(c)[1])
+                    zeros = (arr[0] == "agg" and len(arr[3]) == 4 and all(const_int(x) == 0 for x in arr[3])) or _bytes_consts(arr) == ["\x00\x00\x00\x00"] or (arr[0] == "repeat" and const_int(arr[1]) == 0 and str(arr[2]) in ("4", "4_usize"))
+                    gated = any(lab is True and sym_arg(strip_sym(dd)) is not None and "prefix" in str(sym_arg(strip_sym(dd))[1]) for dd, lab in gates(nb, c.bb))
+                    if zeros and gated:
+                        ph.append(c)
+            if len(ph) == 1:
+                # no return on the prefixed edge without it
+                ok = True
+                for bb_, dd, t_t, f_t in bool_switches(nb):
+                    if sym_arg(strip_sym(dd)) is not None and "prefix" in str(sym_arg(strip_sym(dd))[1]):
+                        ok = ok and not any(nb.term(x)["k"] == "return" for x in nb.reachable(t_t, cut={ph[0].bb}))
         chk.ob("C09.a", f"{newf.path} [initial placeholder]", ok, "new() prepares the first payload" if ok else "new() does not prepare the first payload's placeholder", newf.loc())
     pdrop = [f for f in d.fns if f.name == "drop" and "writer::Payloads" in f.j.get("impl_self", "") and (f.j.get("impl_trait") or "").endswith("Drop")]
     if len(pdrop) != 1:
